@@ -9,6 +9,11 @@ CONSTANTS
   Uris = {"u1", "u2"}
   Want <- WantAll
   CapOff = {}
+  CapMode <- ModeInferred
+  InitSize <- Size3
+  MaxSize = 3
+  Dirs = {"mod"}
+  SendGate = "configured"
   TTLPos = FALSE
   D = 2
   MaxTime = 2
@@ -19,6 +24,7 @@ CONSTANTS
   ListenOwns = TRUE
   ResubRace = FALSE
   GenCheck = TRUE
+  ColdBump = TRUE
   ModernUnsub = FALSE
   ForeignUnsub = FALSE
   Listeners = {"M1"}
@@ -31,6 +37,7 @@ CONSTANTS
   MinSteps = 1
   MaxSteps = 4
   Bias = FALSE
+  Script <- ScriptNone
   GenOps = {"listen", "unlisten", "updated"}
 INVARIANTS LeadUpdated
 CHECK_DEADLOCK FALSE
